@@ -23,7 +23,7 @@ def table():
 
 def build(tier, seed):
     quick = tier == "quick"
-    T = 120 if quick else 600
+    T = 240 if quick else 600
     obs = []
     tab = table()
     names = sorted(k for k in tab if k[1:2].isalpha() and "[" not in k)        # reachable by the letter-run rule
